@@ -84,7 +84,14 @@ func parseLocation(zone string) (*time.Location, error) {
 		return time.UTC, nil
 	}
 	if tm, err := time.Parse("Z07:00", zone); err == nil {
-		return tm.Location(), nil
+		// time.Parse hands out the process's Local location whenever the written
+		// offset is one that Local uses, and a time in Local follows its
+		// daylight-saving rules: keep the offset as a fixed zone.
+		if tm.Location() == time.UTC {
+			return time.UTC, nil
+		}
+		_, offset := tm.Zone()
+		return time.FixedZone("", offset), nil
 	}
 	// A named zone: the JSON unmarshaller stores its default time zone by name
 	// (e.g. "America/New_York", "EST", "Local") in the elements that have none of
